@@ -1620,7 +1620,8 @@ class LangServer:
             self.post_message(f"Configuration file '{self.config}' not found")
 
         # Erroneous json file syntax or content, unreadable file
-        except (ValueError, OSError) as e:
+        # (a file nested too deeply for the reader included)
+        except (ValueError, OSError, RecursionError) as e:
             msg = f'Error: "{e}" while reading "{self.config}" Configuration file'
             self.post_message(msg)
 
